@@ -53,6 +53,147 @@ var c02Numbers = []string{"0", "1", "-1", "18446744073709551615", "1844674407370
 	"9223372036854775808", "99999999999999999999999999", "", "00000000000000000000001", "4294967296", "524288", "2147483648"}
 var c02Hexes = []string{"0x0", "0x1", "0xffffffffffffffff", "0x10000000000000000", "0x", "0xfffffffffffffffffffffff", "0x400000", "0x7fffffffffffffff"}
 
+// ---- value-level strategies for the numeric columns of the text formats ----
+//
+// Every record of every text legacy format carries a few decimal columns that the parsers
+// combine arithmetically (size/count block sizes, scaleHeapSample rates, period and cycles
+// scaling, java "bytes" labels). The failure class to reach is "one column is 0 (or 1,
+// negative, huge) while its neighbours are ordinary", so columns are drawn per RECORD from a
+// pattern, not independently.
+
+var c02Special = []string{"0", "1", "-1", "2", "9223372036854775807", "9223372036854775808", "18446744073709551615",
+	"18446744073709551616", "99999999999999999999999999", "4294967296", "2147483648", "524288", "-9223372036854775808", "00", "007"}
+
+func c02Ordinary(r *Rng) string {
+	switch r.Intn(4) {
+	case 0:
+		return fmt.Sprint(1 + r.Intn(9))
+	case 1:
+		return fmt.Sprint(1 + r.Intn(100000))
+	case 2:
+		return fmt.Sprint(1 + r.Intn(1<<30))
+	default:
+		return fmt.Sprint(1 + r.Intn(1000))
+	}
+}
+
+// c02Cols draws the n numeric columns of one record.
+func c02Cols(r *Rng, n int) []string {
+	out := make([]string, n)
+	for i := range out {
+		out[i] = c02Ordinary(r)
+	}
+	if n == 0 {
+		return out
+	}
+	switch k := r.Intn(100); {
+	case k < 30: // all ordinary, non-zero
+	case k < 55: // exactly one column zero, its neighbours are not
+		out[r.Intn(n)] = "0"
+	case k < 65: // exactly one column one
+		out[r.Intn(n)] = "1"
+	case k < 75: // exactly one column special (negative, huge, overflowing, …)
+		out[r.Intn(n)] = c02Special[r.Intn(len(c02Special))]
+	case k < 83: // all but one column zero
+		keep := r.Intn(n)
+		for i := range out {
+			if i != keep {
+				out[i] = "0"
+			}
+		}
+	case k < 90: // all zero
+		for i := range out {
+			out[i] = "0"
+		}
+	default: // every column independently special or ordinary
+		for i := range out {
+			if r.Bool() {
+				out[i] = c02Special[r.Intn(len(c02Special))]
+			}
+		}
+	}
+	return out
+}
+
+// a decimal column: a run of digits (optionally signed) that is not part of a hex literal,
+// a word or a longer number, left of the '@' that starts the address list of the record.
+var c02ColRE = regexp.MustCompile(`-?[0-9]+`)
+
+func c02ColumnSpans(line []byte) [][]int {
+	limit := len(line)
+	if i := bytes.IndexByte(line, '@'); i >= 0 {
+		limit = i
+	}
+	var out [][]int
+	for _, m := range c02ColRE.FindAllIndex(line[:limit], -1) {
+		if m[0] > 0 {
+			c := line[m[0]-1]
+			if c == 'x' || c == 'X' || c == '_' || c == '.' || (c >= 'a' && c <= 'z') || (c >= 'A' && c <= 'Z') {
+				continue
+			}
+		}
+		if m[1] < len(line) {
+			c := line[m[1]]
+			if c == 'x' || c == '-' || c == '.' || c == '_' || (c >= 'a' && c <= 'z') || (c >= 'A' && c <= 'Z') {
+				continue
+			}
+		}
+		out = append(out, m)
+	}
+	return out
+}
+
+// c02MutateColumns rewrites the numeric columns of 1..3 records (lines) of a text document
+// according to the per-record patterns of c02Cols, or sets a single column and leaves the
+// rest of the record as it is.
+func c02MutateColumns(r *Rng, doc []byte) []byte {
+	lines := bytes.SplitAfter(doc, []byte("\n"))
+	var cand []int
+	for i, l := range lines {
+		if len(l) < 4096*16 && len(c02ColumnSpans(l)) > 0 {
+			cand = append(cand, i)
+		}
+	}
+	if len(cand) == 0 {
+		return c02MutateText(r, doc)
+	}
+	for k, n := 0, 1+r.Intn(3); k < n; k++ {
+		li := cand[r.Intn(len(cand))]
+		if r.Chance(35) && len(cand) > 3 { // the first records and the header lines matter most
+			li = cand[r.Intn(min(len(cand), 6))]
+		}
+		line := lines[li]
+		spans := c02ColumnSpans(line)
+		if len(spans) == 0 {
+			continue
+		}
+		var vals []string
+		if r.Chance(55) { // whole record from a pattern
+			vals = c02Cols(r, len(spans))
+		} else { // one column only
+			vals = make([]string, len(spans))
+			for i, sp := range spans {
+				vals[i] = string(line[sp[0]:sp[1]])
+			}
+			v := "0"
+			if !r.Chance(50) {
+				v = c02Special[r.Intn(len(c02Special))]
+			}
+			vals[r.Intn(len(vals))] = v
+		}
+		var nl []byte
+		prev := 0
+		for i, sp := range spans {
+			nl = append(nl, line[prev:sp[0]]...)
+			nl = append(nl, vals[i]...)
+			prev = sp[1]
+		}
+		nl = append(nl, line[prev:]...)
+		lines[li] = nl
+	}
+	return bytes.Join(lines, nil)
+}
+
 // c02MutateText: line- and number-level edits of a text document.
 func c02MutateText(r *Rng, doc []byte) []byte {
 	out := append([]byte(nil), doc...)
@@ -302,66 +443,96 @@ func c02GenBinaryCPU(r *Rng) []byte {
 
 func c02Hexlist(r *Rng) string {
 	var sb strings.Builder
-	for i, n := 0, r.Intn(6); i < n; i++ {
+	n := 1 + r.Intn(5)
+	if r.Chance(8) {
+		n = 0
+	}
+	for i := 0; i < n; i++ {
 		fmt.Fprintf(&sb, " 0x%x", 0x400000+r.Intn(0x2000))
 	}
 	return sb.String()
 }
 
-// c02GenTextLegacy builds a small well-formed document of one of the text legacy flavours.
+// c02GenTextLegacy builds a small document of one of the text legacy flavours with the
+// printers below; every numeric column of every header and record comes from c02Cols.
 func c02GenTextLegacy(r *Rng) (string, []byte) {
 	var sb strings.Builder
-	num := func() int64 { return int64(r.Intn(100000)) }
-	kind := []string{"heap", "heap_v2", "growth", "fragmentation", "contention", "thread", "goroutine", "javaheap", "javacontention"}[r.Intn(9)]
+	kind := []string{"heap", "heap_v2", "heapz_v2", "growth", "fragmentation", "contention", "mutex", "thread", "goroutine", "javaheap", "javacontention"}[r.Intn(11)]
+	sp := func() string { return strings.Repeat(" ", 1+r.Intn(3)) }
 	switch kind {
-	case "heap", "heap_v2", "growth", "fragmentation":
-		suffix := map[string]string{"heap": "heapprofile", "heap_v2": "heap_v2/524288", "growth": "growthz", "fragmentation": "fragmentationz"}[kind]
-		if kind == "heap" && r.Bool() {
-			suffix = "heap/" + fmt.Sprint(r.Intn(3)) // sampling rate 0,1,2
+	case "heap", "heap_v2", "heapz_v2", "growth", "fragmentation":
+		h := c02Cols(r, 5) // inuse count, inuse bytes, alloc count, alloc bytes, sampling rate
+		if r.Chance(40) {  // no allocation columns: identical to the in-use ones
+			h[2], h[3] = h[0], h[1]
 		}
-		fmt.Fprintf(&sb, "heap profile: %d: %d [ %d: %d] @ %s\n", num(), num(), num(), num(), suffix)
-		for i, n := 0, r.Intn(12); i < n; i++ {
-			fmt.Fprintf(&sb, "%d: %d [ %d: %d] @%s\n", num(), num(), num(), num(), c02Hexlist(r))
+		suffix := map[string]string{"heap": "heap/" + h[4], "heap_v2": "heap_v2/" + h[4], "heapz_v2": "heapz_v2/" + h[4], "growth": "growthz", "fragmentation": "fragmentationz"}[kind]
+		if kind == "heap" && r.Chance(30) {
+			suffix = "heapprofile"
+		}
+		if kind != "growth" && kind != "fragmentation" && r.Chance(10) {
+			suffix = strings.SplitN(suffix, "/", 2)[0] // rate omitted
+		}
+		fmt.Fprintf(&sb, "heap profile: %s: %s [ %s: %s] @ %s\n", h[0], h[1], h[2], h[3], suffix)
+		for i, n := 0, r.Intn(10); i < n; i++ {
+			c := c02Cols(r, 4)
+			if r.Chance(40) {
+				c[2], c[3] = c[0], c[1]
+			}
+			fmt.Fprintf(&sb, "%s%s:%s%s [%s%s:%s%s] @%s\n", sp(), c[0], sp(), c[1], sp(), c[2], sp(), c[3], c02Hexlist(r))
 			if r.Chance(10) {
 				sb.WriteString("# comment\n\n")
 			}
 		}
 		sb.WriteString("\nMAPPED_LIBRARIES:\n00400000-00401000 r-xp 00000000 00:00 0 /bin/prog\n")
-	case "contention":
-		sb.WriteString("--- contentionz 1 ---\n")
-		fmt.Fprintf(&sb, "cycles/second = %d\nsampling period = %d\nms since reset = %d\ndiscarded samples = 0\n", num(), num(), num())
-		for i, n := 0, r.Intn(12); i < n; i++ {
-			fmt.Fprintf(&sb, "  %d %d @%s\n", num(), num(), c02Hexlist(r))
+	case "contention", "mutex":
+		if kind == "mutex" {
+			sb.WriteString("--- mutex:\n")
+		} else {
+			sb.WriteString("--- contentionz 1 ---\n")
+		}
+		h := c02Cols(r, 4)
+		attrs := []string{"cycles/second = " + h[0], "sampling period = " + h[1], "ms since reset = " + h[2], "discarded samples = " + h[3]}
+		for _, a := range attrs {
+			if r.Chance(85) {
+				sb.WriteString(a + "\n")
+			}
+		}
+		for i, n := 0, r.Intn(10); i < n; i++ {
+			c := c02Cols(r, 2)
+			fmt.Fprintf(&sb, "%s%s%s%s @%s\n", sp(), c[0], sp(), c[1], c02Hexlist(r))
 		}
 		sb.WriteString(c02MemMap)
 	case "thread":
-		fmt.Fprintf(&sb, "--- threadz %d ---\n\n", r.Intn(5))
+		fmt.Fprintf(&sb, "--- threadz %s ---\n\n", c02Cols(r, 1)[0])
 		for i, n := 0, r.Intn(6); i < n; i++ {
-			fmt.Fprintf(&sb, "--- Thread %x (name: t%d/%d) stack: ---\n", 0x7f0000000000+r.Intn(1000), i, r.Intn(9999))
-			if r.Chance(15) {
-				sb.WriteString("    (Same as previous thread)\n")
+			fmt.Fprintf(&sb, "--- Thread %x (name: t%d/%s) stack: ---\n", 0x7f0000000000+r.Intn(1000), i, c02Cols(r, 1)[0])
+			if r.Chance(25) {
+				sb.WriteString("    [same as previous thread]\n")
 			} else {
 				fmt.Fprintf(&sb, " %s\n", c02Hexlist(r))
 			}
 		}
 		sb.WriteString(c02MemMap)
 	case "goroutine":
-		fmt.Fprintf(&sb, "goroutine profile: total %d\n", num())
+		fmt.Fprintf(&sb, "%s profile: total %s\n", []string{"goroutine", "threadcreate", "x"}[r.Intn(3)], c02Cols(r, 1)[0])
 		for i, n := 0, r.Intn(8); i < n; i++ {
-			fmt.Fprintf(&sb, "%d @%s\n#\t0x400000\tmain.f+0x10\t/a/b.go:12\n\n", num(), c02Hexlist(r))
+			fmt.Fprintf(&sb, "%s @%s\n#\t0x400000\tmain.f+0x10\t/a/b.go:12\n\n", c02Cols(r, 1)[0], c02Hexlist(r))
 		}
 	case "javaheap":
 		sb.WriteString("--- heapz 1 ---\nformat = java\nresolution = bytes\n")
-		for i, n := 0, r.Intn(8); i < n; i++ {
-			fmt.Fprintf(&sb, "   %d %d @%s\n", 1+num(), num(), c02Hexlist(r))
+		for i, n := 0, 1+r.Intn(8); i < n; i++ {
+			c := c02Cols(r, 2) // bytes, objects
+			fmt.Fprintf(&sb, "%s%s%s%s @%s\n", sp(), c[0], sp(), c[1], c02Hexlist(r))
 		}
 		for i := 0; i < 6; i++ {
-			fmt.Fprintf(&sb, "   0x%x %s (F.java:%d)\n", 0x400000+r.Intn(0x2000), defaultNames[r.Intn(len(defaultNames))], r.Intn(200))
+			fmt.Fprintf(&sb, "   0x%x %s (F.java:%s)\n", 0x400000+r.Intn(0x2000), defaultNames[r.Intn(len(defaultNames))], c02Cols(r, 1)[0])
 		}
 	case "javacontention":
-		fmt.Fprintf(&sb, "--- contentionz 1 ---\nformat = java\nresolution = microseconds\nsampling period = %d\nms since reset = %d\n", r.Intn(200), num())
-		for i, n := 0, r.Intn(8); i < n; i++ {
-			fmt.Fprintf(&sb, "   %d %d @%s\n", num(), num(), c02Hexlist(r))
+		h := c02Cols(r, 2)
+		fmt.Fprintf(&sb, "--- contentionz 1 ---\nformat = java\nresolution = microseconds\nsampling period = %s\nms since reset = %s\n", h[0], h[1])
+		for i, n := 0, 1+r.Intn(8); i < n; i++ {
+			c := c02Cols(r, 2)
+			fmt.Fprintf(&sb, "%s%s%s%s @%s\n", sp(), c[0], sp(), c[1], c02Hexlist(r))
 		}
 		for i := 0; i < 6; i++ {
 			fmt.Fprintf(&sb, "   0x%x %s (libx.so)\n", 0x400000+r.Intn(0x2000), defaultNames[r.Intn(len(defaultNames))])
